@@ -3,8 +3,9 @@ import AioslskVerif.Model.XferTasks
 Line protocol for K_C06 (one op per line, same `step` the theorems are about).
 
   reset | addDownload | addUpload | addFailed | cycle <k>* | preq <k> | tstart <t>
-  tend <t> <ok|fail|toQueue|transferring|complete|incomplete|cancelled|refused>
+  tend <t> <ok|fail|toQueue|transferring|complete|incomplete|failing|cancelled|refused>
   tcb <t> | call <k> <abort|pause|remove> | rmid <k> | resume <k> | requeue <k> | peerfail <k> | upfail <k>
+  upqs <k> | upqe <k>      (PeerTransferQueue for upload k: the handler found it and suspends / goes on)
 
 Answer: `nt=<tasks created> missed=<downloads a cycle would still spawn for|-> [end=<cancelled|refused|normal|none>] |
 <k>:<STATE>:r<retry 0|1>:rq<0|1>:a<attempts>:Q<N|L|D>:T<N|L|D>:<-|A|P|R locked>:<removed 0|1>:q<quiet 0|1>:live<n> ...`
@@ -49,7 +50,7 @@ def endKind (s : TS) (t : Nat) : String :=
 def parseOutcome : String → Option Outcome
   | "ok" => some .ok | "fail" => some .fail | "cancelled" => some .fail | "toQueue" => some .toQueue
   | "transferring" => some .transferring | "complete" => some .complete | "incomplete" => some .incomplete
-  | "refused" => some .fail | _ => none
+  | "failing" => some .failing | "refused" => some .fail | _ => none
 
 def parseCall : String → Option CallKind
   | "abort" => some .abort | "pause" => some .pause | "remove" => some .remove | _ => none
@@ -69,6 +70,8 @@ def parseOp : List String → Option Op
   | ["requeue", k] => k.toNat?.map .requeue
   | ["peerfail", k] => k.toNat?.map .peerFail
   | ["upfail", k] => k.toNat?.map .peerUploadFailed
+  | ["upqs", k] => k.toNat?.map .peerQueueStart
+  | ["upqe", k] => k.toNat?.map .peerQueueEnd
   | _ => none
 
 def handle (s : TS) (line : String) : TS × String :=
